@@ -247,17 +247,22 @@ class TaskO(TaskBase):
 
 
 class TaskTM(TaskT):
-    """Engine-B plans only: receives other jobs through ignored (Meta) parameters as well."""
+    """Engine-B plans only: receives other jobs through ignored (Meta) parameters as well, and tasks of any class
+    (also the task object of a class that declares task_outputs, instead of its output)."""
 
     mt: Meta[Optional[TaskT]]
     mts: Meta[List[TaskT]] = []
     ma: Meta[Optional[Artifact]]
+    tb: Param[Optional[TaskBase]]
+    tbs: Param[List[TaskBase]] = []
 
 
 class TaskOM(TaskO):
     mt: Meta[Optional[TaskT]]
     mts: Meta[List[TaskT]] = []
     ma: Meta[Optional[Artifact]]
+    tb: Param[Optional[TaskBase]]
+    tbs: Param[List[TaskBase]] = []
 
 
 class Pre(Instrumented, LightweightTask):
